@@ -208,6 +208,11 @@ func (w *watcher) List(ctx context.Context, id int64, r *etcdserverpb.WatchCreat
 		w.Cancel(id, err, true)
 		return
 	}
+	if len(r.Key) == 0 || len(r.RangeEnd) == 0 {
+		// as the native RangeStream: a streamed range needs both borders
+		w.Cancel(id, status.Error(codes.InvalidArgument, "range stream needs key and range_end"), true)
+		return
+	}
 	startTime := time.Now()
 	klog.InfoS("RANGE STREAM", "watcher", w.id, "watch", id, "key", r.Key, "end", r.RangeEnd, "rev", r.StartRevision)
 	ch, err := w.backend.ListByStream(ctx, r.Key, r.RangeEnd, uint64(r.StartRevision*-1))
